@@ -42,6 +42,10 @@ pub struct LoCase {
     pub missing: String,
     pub base: Sim,
     pub variants: Vec<(usize, Sim)>,
+    /// ancestor position of the planted indel (or SNP site) one of whose junction k-mers has a flank
+    /// twin elsewhere in the genome
+    #[serde(default, skip_serializing_if = "Option::is_none")]
+    pub twin_of: Option<usize>,
 }
 
 pub struct LoWorkload {
@@ -226,6 +230,34 @@ impl LoWorkload {
                 }
                 sites.insert(p, String::from_utf8(assign).unwrap());
             }
+            // sometimes a k-mer that contains a SNP site (not as its middle base) has a flank twin
+            // at the end of the genome: same flanks around another middle base, all (k-1)-mers still
+            // unique. The row of that split k-mer then holds an ambiguity code in some samples.
+            let mut anc = anc;
+            if !with_ref && k >= 9 && rng.chance(12) {
+                let p0 = *rng.pick(&pos);
+                let s0 = rng.below(n);
+                // window of k bases of sample s0 containing the site away from the middle
+                let off = loop {
+                    let o = rng.below(k);
+                    if o != k / 2 {
+                        break o;
+                    }
+                };
+                if p0 >= off && p0 - off + k <= seqs[s0].len() {
+                    let st = p0 - off;
+                    let mut twin = seqs[s0][st..st + k].to_vec();
+                    twin[k / 2] = other(rng, &[twin[k / 2]]);
+                    let mut add = rng.dna(5);
+                    add.extend(twin);
+                    add.extend(rng.dna(5));
+                    for sq in seqs.iter_mut() {
+                        sq.extend(&add);
+                    }
+                    anc.extend(&add);
+                    probe("c17_flank_twin_of_a_kmer_over_a_snp_planted");
+                }
+            }
             let labels: Vec<Vec<(usize, usize)>> = seqs.iter().map(|s| (0..s.len()).map(|i| (i, 0)).collect()).collect();
             if !in_domain(&seqs, &labels, m, true) {
                 continue;
@@ -243,6 +275,7 @@ impl LoWorkload {
                 missing: ["0.1", "0", "0.3"][rng.below(3)].to_string(),
                 base: Sim::plain(rng.next_u64() >> 1),
                 variants: Self::gen_variants(rng, nv, 8),
+                twin_of: None,
             });
         }
         None
@@ -278,6 +311,32 @@ impl LoWorkload {
             }
             if indels.is_empty() {
                 continue;
+            }
+            // sometimes a k-mer that spans an indel junction has a "flank twin" elsewhere: the same
+            // k/2 bases on either side around another middle base (appended to the ancestor, far from
+            // every indel). All (k-1)-mers stay unique, so this is inside the domain; the stored row
+            // of that split k-mer then holds an ambiguity code in the samples that have both
+            let mut anc = anc;
+            let mut twin_of = None;
+            if rng.chance(15) {
+                let d = rng.pick(&indels).clone();
+                let mut derived: Vec<u8> = anc[..d.pos].to_vec();
+                derived.extend(d.ins.bytes());
+                derived.extend(&anc[(d.pos + d.del).min(anc.len())..]);
+                let lo = d.pos.saturating_sub(k - 1);
+                let hi = (d.pos + d.ins.len()).min(derived.len().saturating_sub(k));
+                if lo < hi {
+                    let st = rng.range(lo, hi);
+                    let mut twin = derived[st..st + k].to_vec();
+                    twin[k / 2] = other(rng, &[twin[k / 2]]);
+                    let spacer = rng.dna(5);
+                    anc.extend(spacer);
+                    anc.extend(twin);
+                    let tail = rng.dna(5);
+                    anc.extend(tail);
+                    twin_of = Some(d.pos);
+                    probe("c18_flank_twin_of_a_junction_kmer_planted");
+                }
             }
             // sometimes the same insertion (same bases, same carriers) happens at two loci
             if indels.len() >= 2 && indels[0].del == 0 && rng.chance(12) {
@@ -330,6 +389,7 @@ impl LoWorkload {
                 missing: "0.1".into(),
                 base: Sim::plain(rng.next_u64() >> 1),
                 variants: Self::gen_variants(rng, nv, 4),
+                twin_of,
             });
         }
         None
@@ -354,6 +414,7 @@ impl LoWorkload {
             missing: ["0.1", "0", "0.3", "0.5"][rng.below(4)].to_string(),
             base: Sim::plain(rng.next_u64() >> 1),
             variants: Self::gen_variants(rng, 2, 8),
+            twin_of: None,
         }
     }
 }
@@ -444,6 +505,16 @@ impl Workload for LoWorkload {
                 if let Some(st) = name.strip_prefix("c18_stratum_").and_then(|x| x.strip_suffix("_planted")) {
                     let pl = v.as_u64().unwrap_or(0);
                     let rp = p.get(&format!("c18_stratum_{st}_reported")).and_then(|x| x.as_u64()).unwrap_or(0);
+                    // grid cells (k with an exact length, k with insertion / deletion) get a floor, not
+                    // the 90 %: the property's allowance is an aggregate, but a cell of the
+                    // quantifier's grid that is mostly unreported is a class of indels lost
+                    let cell = st.starts_with('k') && st.contains('_');
+                    if cell {
+                        if pl >= 200 && (rp as f64) < 0.5 * pl as f64 {
+                            return Some((format!("lo:indel-class-mostly-unreported[{st}]"), format!("{rp} of {pl} planted isolated indels of the class '{st}' were reported over the batch ({:.1}%)", 100.0 * rp as f64 / pl as f64)));
+                        }
+                        continue;
+                    }
                     if pl >= 300 && (rp as f64) < 0.9 * pl as f64 {
                         return Some((format!("lo:indel-recall-below-90-percent[{st}]"), format!("{rp} of {pl} planted isolated indels of the sub-population '{st}' were reported over the batch ({:.1}%)", 100.0 * rp as f64 / pl as f64)));
                     }
@@ -486,7 +557,15 @@ impl Workload for LoWorkload {
         let anc = c.ancestor.as_bytes();
         let reference: Vec<u8> = if c.ref_rc { revcomp(anc) } else { anc.to_vec() };
         if with_ref {
-            dir.write("ref.fa", crate::util::wrap_fasta("anc", &reference, 60).as_bytes());
+            // the reference file may be wrapped at any width or not at all, with LF or CRLF line ends
+            let h = crate::util::mix(c.base.seed, 0x7ef);
+            let width = [60usize, 0, 100, 150, 70][(h % 5) as usize];
+            let mut text = crate::util::wrap_fasta("anc", &reference, width);
+            if (h >> 8) % 4 == 0 {
+                text = text.replace('\n', "\r\n");
+                probe("c17_reference_with_crlf_line_ends");
+            }
+            dir.write("ref.fa", text.as_bytes());
         }
         let mut a = vec!["build".to_string(), "-o".into(), "in".into(), "-k".into(), c.k.to_string()];
         a.extend(c.samples.iter().map(|s| s.file()));
@@ -795,7 +874,15 @@ impl Workload for LoWorkload {
                             if d.carriers.len() == 1 || d.carriers.len() == n - 1 {
                                 strata.push("singleton_carrier_or_non_carrier");
                             }
+                            if c.twin_of == Some(d.pos) {
+                                strata.push("junction_kmer_with_a_flank_twin");
+                            }
                             strata.push(match c.k { 11 => "k11", 15 => "k15", 21 => "k21", _ => "k31" });
+                            // the cells of the quantifier's own grid: every k with every exact length,
+                            // and with insertion / deletion
+                            let mut strata: Vec<String> = strata.into_iter().map(|x| x.to_string()).collect();
+                            strata.push(format!("k{}_len{}", c.k, l));
+                            strata.push(format!("k{}_{}", c.k, if d.del > 0 { "deletion" } else { "insertion" }));
                             for st in strata {
                                 probe(&format!("c18_stratum_{st}_planted"));
                                 if found {
